@@ -104,9 +104,9 @@ class ParserState:
                         some = True
                         pairs.extend(children)
                         self.ok()
-                        # continue
-                    else:
-                        self.restore()
+                        children.clear()
+                        continue
+                    self.restore()
                     children.clear()
 
                 if comment_rule:
